@@ -932,6 +932,17 @@ func (g *GoFakeS3) putMultipartUploadPart(bucket, object string, uploadID Upload
 	defer r.Body.Close()
 	var rdr io.Reader = r.Body
 
+	// A part may be sent with the same aws-chunked framing as an object: what
+	// is stored, measured against the declared (decoded) length and checked
+	// against Content-MD5 is the payload, not the framing.
+	if r.Header.Get("X-Amz-Content-Sha256") == "STREAMING-AWS4-HMAC-SHA256-PAYLOAD" {
+		rdr = newChunkedReader(r.Body)
+		size, err = strconv.ParseInt(r.Header.Get("X-Amz-Decoded-Content-Length"), 10, 64)
+		if err != nil || size <= 0 {
+			return ErrMissingContentLength
+		}
+	}
+
 	if g.integrityCheck {
 		md5Base64 := r.Header.Get("Content-MD5")
 		if _, ok := r.Header[textproto.CanonicalMIMEHeaderKey("Content-MD5")]; ok && md5Base64 == "" {
@@ -947,7 +958,7 @@ func (g *GoFakeS3) putMultipartUploadPart(bucket, object string, uploadID Upload
 		}
 	}
 
-	etag, err := g.uploader.UploadPart(bucket, object, uploadID, int(partNumber), r.ContentLength, rdr)
+	etag, err := g.uploader.UploadPart(bucket, object, uploadID, int(partNumber), size, rdr)
 	if err != nil {
 		return err
 	}
